@@ -145,6 +145,9 @@ class SymCtx(Ctx):
         self.eng.report(label, key=key, detail=detail)
 
     def eq(self, a, b):
+        if isinstance(a, float) and isinstance(b, float) and a == a and b == b and abs(a) != float("inf") and abs(b) != float("inf"):
+            # two concrete floats (no symbolic part reached them): equal to floating-point accuracy, as on the replay
+            return abs(a - b) <= 1e-9 + 1e-7 * max(abs(a), abs(b))
         return a == b
 
     def tmp(self, name):
